@@ -55,7 +55,7 @@ def rules(ctx: Ctx) -> None:
         for n in prog.walk_fn(f):
             if isinstance(n, ast.Call) and isinstance(n.func, ast.Attribute) and n.func.attr == lookup.name and provider_typed(prog, n.func.value, f, P):
                 lookups.append((f, n))
-    ctx.floor("provider look-ups outside the provider classes", len(lookups), 4)
+    ctx.floor("provider look-ups outside the provider classes", len(lookups), 2)
 
     # whitelisted guard atoms per look-up site, in canonical (rename-invariant) form: local names are replaced by their origin
     from ..canon import canon, canon_text
@@ -206,7 +206,7 @@ def rules(ctx: Ctx) -> None:
         return any((isinstance(x, ast.Attribute) and x.attr in cand) or (isinstance(x, ast.Name) and x.id in cand) for x in ast.walk(it))
     loops = [n for n in prog.walk_fn(fold) if isinstance(n, ast.For) and over_candidates(n.iter)]
     comps = [n for n in prog.walk_fn(fold) if isinstance(n, (ast.GeneratorExp, ast.ListComp)) and any(over_candidates(g.iter) for g in n.generators)]
-    ctx.floor("iterations over the owner candidates of an unresolved column", len(loops) + len(comps), 2)
+    ctx.floor("iterations over the owner candidates of an unresolved column", len(loops) + len(comps), 1)
     for c in comps:
         par = prog.parent(c)
         first = isinstance(par, ast.Call) and isinstance(par.func, ast.Name) and par.func.id == "next"
